@@ -413,6 +413,9 @@ func (fc *funcContext) translateStmt(stmt ast.Stmt, label *types.Label) {
 			if s.Tok != token.DEFINE {
 				return false
 			}
+			if !s.TokPos.IsValid() {
+				return true // statement synthesized by the compiler: always a declaration
+			}
 			if id, ok := lhs.(*ast.Ident); ok {
 				if _, isUse := fc.pkgCtx.Uses[id]; isUse && fc.pkgCtx.Defs[id] == nil {
 					return false
